@@ -24,6 +24,12 @@ PROPERTIES = {
         "trusted_base": ["fixedint 0.2.0 (model)", "S-MEM (spec/smem.py) stands for state.memory; the flat Memory is proved to implement it in C18", "str(float) digits"],
         "while_bound": 8,
     },
+    "C02": {
+        "modules": ["contracts.c02_pipeline"],
+        "level": "other",
+        "explanation": "PROVED: (A) per mnemonic, the real five-stage step x5 on the one-instruction program equals the ISA reference on every listed component incl. redirect target and fault report, full operand space, symbolic pc; (B) programs of 4-5 instructions from producer/consumer templates with ALL register numbers and contents symbolic (every aliasing pattern => every RAW/WAW hazard at distance 1,2,3): real five-stage run == real single-cycle run; (C) wrong-path instructions behind taken branch/JAL/JALR/exit ecall have no effect; (D) faults report the same address with the same state. BOUNDED: arbitrary longer programs (run-time refinement contract over enumerated and random programs).",
+        "trusted_base": ["S-MEM object for data memory (C18/C03)", "fixedint model"],
+    },
     "C03": {
         "modules": ["contracts.cache"],
         "level": "proof",
@@ -80,13 +86,16 @@ PROPERTIES = {
 }
 
 PENDING = "check not built yet in this session (planned, see DESIGN.md section 4)"
-NOT_APPLICABLE = {p: PENDING for p in ["C02", "C04", "C05", "C07", "C08", "C13", "C14", "C15", "C16"]}
+NOT_APPLICABLE = {p: PENDING for p in ["C04", "C05", "C07", "C08", "C13", "C14", "C15", "C16"]}
 
 _T = "contract-based deductive verification: VCs from symbolic execution of the real AST, z3"
 MANIFEST_TEXT = {
     "C01": {"text": "Proof per instruction over the full operand space: for each of the 45 in-scope mnemonics and each ecall code, the real single-stage step on a state with arbitrary registers, memory, pc and counters equals the independently written RV32IM reference on every listed component, incl. fault reporting; done <=> exit code or no instruction at pc; run() by loop invariant. Programs follow by induction over steps.",
             "note": "Data memory is the S-MEM contract object (flat Memory proved to implement it in C18). ecall 4 (string) is BOUNDED to strings of <= 6 bytes with ASCII content; ecall 2 proves only that a0's bits are formatted (float digits trusted). Termination of run() not proved. Known finding F6 (negative pc on backward branch below 0) is listed in known_findings.json.",
             "technique": _T},
+    "C02": {"text": "Proved contracts plus a bounded composition. Proved for all operand values and all register-number aliasings: single-instruction equivalence for all 45 mnemonics + ecall codes (five real pipeline steps vs ISA reference, incl. redirect target and fault reporting), and real-five-stage == real-single-cycle on template programs of 4-5 instructions covering producer->consumer hazards at distance 1/2/3, taken/not-taken branches, JAL, JALR, exiting/printing ecalls with wrong-path stores/ALU ops/loads/ecalls/branches behind them, and faulting loads/ecalls between other instructions. 'For every program' beyond these templates is a BOUNDED run-time refinement contract (enumerated + random programs), never counted as proved.",
+            "note": "The inductive whole-history refinement (Burch-Dill flushing over the stage contracts) was not attempted; composition for arbitrary programs rests on the bounded part. Termination is inherited, not proved. F1 (five-stage JALR/branch redirect not wrapped to 32 bits) was found by the single-instruction units and fixed in /repo.",
+            "technique": _T + "; bounded run-time refinement contract for arbitrary programs"},
     "C03": {"text": "Proof per enumerated configuration (PROVED-PER-CONFIG): for any well-formed cache state, backing memory, address, value and flags, each read returns the S-MEM value of the logical view, each write updates exactly the touched bytes of the view (stated for every byte address), word-crossing or out-of-range accesses are rejected with every stored value unchanged, wf_cache is preserved; constructor/reset establish it. Unbounded histories by induction.",
             "note": "Geometries outside the enumerated set are not proved. Backing memory is the S-MEM object (C18). Program-level consequence follows from C01/C02 being proved against S-MEM; it is cross-checked by a bounded run-time contract. F2 (write-through word-crossing store on a miss) was found by these units and fixed in /repo.",
             "technique": _T + ", per-configuration inductive data-structure invariant against an abstract view"},
